@@ -200,7 +200,7 @@ def run(ck, ctx):
     run_fragments(ck, ctx, jobs)
     # ---- the shape after SEVERAL ALTER statements on one table (ADD column, RENAME, DROP, FOREIGN KEY / UNIQUE on the new names)
     from ..specs.alter import check_sequences
-    check_sequences(ck, ctx, rule="O-shape")
+    check_sequences(ck, ctx, rule="O-shape", extra_modes=())
     ck.assumptions += ["json.dumps encodes dict / list / tuple / str / int / float / bool / None (CPython)",
                        "declined: `primary_key lists names of that table's columns` (value-level)",
                        "reviewed: prepare_alter_columns can append a reference-only column record for an ALTER naming a column the table "
